@@ -1,7 +1,7 @@
 SPECIFICATION Spec
 CONSTANTS
   NodeKinds <- KindsAll
-  MaxLen = 1
+  MaxLen = 2
   Configs <- ConfigsQuick
   TexDevs <- NoDevs
   Bug = ""
